@@ -385,3 +385,77 @@ pub fn cmd_stress(args: &[String]) -> i32 {
     println!("{}", json!({"runs":runs,"hangs":hangs}));
     0
 }
+
+/// `c19 merge <sequences.ndjson> <out.ndjson>`: sequences of MetadataUpdate merges (full fetches, partial topology
+/// fetches, status hints) interleaved with takes, applied to the REAL `merge_*` constructors through the verif hook;
+/// one output line per input line: what every take (and the final drain) received.
+/// Input: {"ops":[{"op":"full","peers":[..],"refresh":0|1}|{"op":"topo","peers":[..]}|{"op":"up","n":i}|{"op":"down","n":i}|{"op":"take"}...]}
+pub fn cmd_merge(args: &[String]) -> i32 {
+    use scylla::cluster::verif_update_hooks::{VOp, run};
+    use serde_json::{Value, json};
+    use std::io::{BufRead, Write};
+    if args.len() != 2 {
+        eprintln!("usage: vh-driver c19 merge <sequences.ndjson> <out.ndjson>");
+        return 2;
+    }
+    let inp = match std::fs::File::open(&args[0]) {
+        Ok(f) => std::io::BufReader::new(f),
+        Err(e) => {
+            eprintln!("open {}: {e}", args[0]);
+            return 2;
+        }
+    };
+    let mut out = match std::fs::File::create(&args[1]) {
+        Ok(f) => std::io::BufWriter::new(f),
+        Err(e) => {
+            eprintln!("create {}: {e}", args[1]);
+            return 2;
+        }
+    };
+    let ids = |v: &Value| -> Vec<u8> { v.as_array().map(|a| a.iter().filter_map(|x| x.as_u64()).map(|x| x as u8).collect()).unwrap_or_default() };
+    let mut lines = 0u64;
+    for line in inp.lines() {
+        let Ok(line) = line else { return 2 };
+        if line.trim().is_empty() {
+            continue;
+        }
+        let v: Value = match serde_json::from_str(&line) {
+            Ok(v) => v,
+            Err(e) => {
+                eprintln!("bad line: {e}");
+                return 2;
+            }
+        };
+        let mut ops = Vec::new();
+        for o in v["ops"].as_array().cloned().unwrap_or_default() {
+            ops.push(match o["op"].as_str().unwrap_or("") {
+                "full" => VOp::Full { peers: ids(&o["peers"]), refresh: o["refresh"].as_u64() == Some(1) },
+                "topo" => VOp::Topology { peers: ids(&o["peers"]) },
+                "up" => VOp::Up(o["n"].as_u64().unwrap_or(0) as u8),
+                "down" => VOp::Down(o["n"].as_u64().unwrap_or(0) as u8),
+                "take" => VOp::Take,
+                other => {
+                    eprintln!("unknown op {other:?}");
+                    return 2;
+                }
+            });
+        }
+        let taken = match std::panic::catch_unwind(|| run(&ops)) {
+            Ok(t) => t
+                .into_iter()
+                .map(|t| {
+                    json!({"kind": t.kind, "has_peers": t.peers.is_some() as u8, "peers": t.peers.unwrap_or_default(), "refresh": t.refresh_responses,
+                           "hints": t.hints.iter().map(|(n, up)| json!([n, *up as u8])).collect::<Vec<_>>()})
+                })
+                .collect::<Vec<_>>(),
+            Err(_) => vec![json!({"kind": "panic", "has_peers": 0, "peers": [], "refresh": 0, "hints": [], "panic": crate::last_panic()})],
+        };
+        if writeln!(out, "{}", json!({"ops": v["ops"], "taken": taken})).is_err() {
+            return 2;
+        }
+        lines += 1;
+    }
+    let _ = out.flush();
+    println!("{}", json!({"cmd": "c19-merge", "lines": lines}));
+    0
+}
